@@ -680,8 +680,8 @@ impl revm::DatabaseRef for InnerRef {
     fn basic_ref(&self, a: Address) -> Result<Option<AccountInfo>, Self::Error> {
         Ok(if a == CALLER { Some(AccountInfo { nonce: 1, balance: U256::from(5), code_hash: revm::primitives::KECCAK_EMPTY, code: None }) } else { None })
     }
-    fn code_by_hash_ref(&self, _h: B256) -> Result<Bytecode, Self::Error> {
-        Ok(Bytecode::default())
+    fn code_by_hash_ref(&self, h: B256) -> Result<Bytecode, Self::Error> {
+        Ok(if h == B256::repeat_byte(0xc0) { Bytecode::new_legacy(Bytes::from_static(&[0x60, 0x01, 0x00])) } else { Bytecode::default() })
     }
     fn storage_ref(&self, a: Address, i: U256) -> Result<U256, Self::Error> {
         Ok(if i == U256::from(1) { if a == CALLER { U256::from(7) } else { U256::from(9) } } else { U256::ZERO })
@@ -723,6 +723,24 @@ pub fn cachedb_read_policy() -> String {
     let other = Address::repeat_byte(0x77);
     let m = db.storage(other, one).unwrap();
     out += &format!("[storage uncached missing got={} want=0{}] ", m, if m == U256::ZERO { "" } else { " MISMATCH" });
+    // contract code: read through, repeated read, cached entry wins
+    {
+        let h = B256::repeat_byte(0xc0);
+        let want = Bytecode::new_legacy(Bytes::from_static(&[0x60, 0x01, 0x00]));
+        let mut db = CacheDB::new(InnerRef);
+        let c1 = db.code_by_hash_ref(h).unwrap();
+        let c2 = db.code_by_hash(h).unwrap();
+        let c3 = db.code_by_hash(h).unwrap();
+        let c4 = db.code_by_hash_ref(h).unwrap();
+        let okc = c1 == want && c2 == want && c3 == want && c4 == want;
+        out += &format!("[code_by_hash inner {}] [code_by_hash_ref inner {}] ", if okc { "ok" } else { "MISMATCH" }, if okc { "ok" } else { "MISMATCH" });
+        let other = Bytecode::new_legacy(Bytes::from_static(&[0x5b]));
+        db.contracts.insert(B256::repeat_byte(0xc1), other.clone());
+        let d1 = db.code_by_hash_ref(B256::repeat_byte(0xc1)).unwrap();
+        let d2 = db.code_by_hash(B256::repeat_byte(0xc1)).unwrap();
+        let okd = d1 == other && d2 == other;
+        out += &format!("[code_by_hash cached {}] [code_by_hash_ref cached {}] ", if okd { "ok" } else { "MISMATCH" }, if okd { "ok" } else { "MISMATCH" });
+    }
     // block hashes: first read, repeated read, read through a shared reference after caching
     let mut db = CacheDB::new(InnerRef);
     let h1 = db.block_hash_ref(5).unwrap();
@@ -1158,6 +1176,19 @@ pub fn block_state_kernel() -> String {
         out += &format!("[CacheDB::commit touched empty account that did not exist exists={}{}] ", b.is_some(), tag(b.is_some()));
     }
 
+    // ---- State::code_by_hash: read through, cached afterwards (a later change of the database does not show)
+    {
+        let code = Bytecode::new_legacy(Bytes::from_static(&[0x60, 0x01, 0x00]));
+        let h = code.hash_slow();
+        let mut db = CacheDB::new(EmptyDB::default());
+        db.contracts.insert(h, code.clone());
+        let mut s = BlockState::builder().with_database(db).build();
+        let c1 = s.code_by_hash(h).unwrap();
+        s.database.contracts.insert(h, Bytecode::new_legacy(Bytes::from_static(&[0x5b])));
+        let c2 = s.code_by_hash(h).unwrap();
+        out += &format!("[State::code_by_hash read through and cached{}] ", tag(c1 == code && c2 == code));
+    }
+
     // ---- load_cache_account
     for (name, info, want) in [("absent", None, St::LoadedNotExisting), ("empty", Some(empty.clone()), St::LoadedEmptyEIP161), ("existing", Some(x.clone()), St::Loaded)] {
         let s = mk(true, info.clone());
@@ -1168,5 +1199,43 @@ pub fn block_state_kernel() -> String {
     s.database.insert_account_info(target, y.clone()); // the cached answer must win over a later database change
     let c = s.load_cache_account(target).unwrap();
     out += &format!("[load_cache_account cached reuse{}] ", tag(c.account_info() == Some(x.clone())));
+    out
+}
+
+// ---------------------------------------------------------------- Bytecode accessors agree with each other for every variant
+pub fn bytecode_accessors() -> String {
+    use revm::interpreter::analysis::to_analysed;
+    use revm::primitives::{keccak256, Eof, KECCAK_EMPTY};
+    let mut out = String::new();
+    let mut check = |name: &str, bc: &Bytecode, want: &[u8]| {
+        let ok_slice = bc.original_byte_slice() == want;
+        let ok_bytes = bc.original_bytes().as_ref() == want;
+        let ok_len = bc.len() == want.len() && bc.is_empty() == want.is_empty();
+        let ok_hash = bc.hash_slow() == if want.is_empty() { KECCAK_EMPTY } else { keccak256(want) };
+        out += &format!("[bytecode {} len={} want_len={} slice={} bytes={} hash={}{}] ", name, bc.len(), want.len(), ok_slice, ok_bytes, ok_hash,
+            if ok_slice && ok_bytes && ok_len && ok_hash { "" } else { " MISMATCH" });
+    };
+    let code: Vec<u8> = vec![0x60, 0x01, 0x5b, 0x7f, 0x00];
+    check("legacy raw", &Bytecode::new_legacy(Bytes::from(code.clone())), &code);
+    check("legacy analysed", &to_analysed(Bytecode::new_legacy(Bytes::from(code.clone()))), &code);
+    check("legacy raw empty", &Bytecode::new_legacy(Bytes::new()), &[]);
+    check("legacy analysed empty", &to_analysed(Bytecode::new_legacy(Bytes::new())), &[]);
+    let mut zeros = vec![0x5b];
+    zeros.extend(std::iter::repeat(0u8).take(40)); // ends like the analysis padding
+    check("legacy analysed zero tail", &to_analysed(Bytecode::new_legacy(Bytes::from(zeros.clone()))), &zeros);
+    let a = address!("00000000000000000000000000000000000000a1");
+    let d = Bytecode::new_eip7702(a);
+    let mut raw = vec![0xef, 0x01, 0x00];
+    raw.extend_from_slice(a.as_slice());
+    check("eip7702", &d, &raw);
+    let eof = Eof::default();
+    let full = eof.raw().to_vec();
+    check("eof default", &Bytecode::Eof(std::sync::Arc::new(eof)), &full);
+    // header declares 4 data bytes, 1 is present: accepted by decode (data may be filled later), the stored bytes are what was given
+    let trunc: Vec<u8> = vec![0xef, 0x00, 0x01, 0x01, 0x00, 0x04, 0x02, 0x00, 0x01, 0x00, 0x01, 0x04, 0x00, 0x04, 0x00, 0x00, 0x80, 0x00, 0x00, 0x00, 0xaa];
+    match Eof::decode(Bytes::from(trunc.clone())) {
+        Ok(e) => check("eof truncated data", &Bytecode::Eof(std::sync::Arc::new(e)), &trunc),
+        Err(e) => out += &format!("[bytecode eof truncated data not accepted by decode: {e:?}] "),
+    }
     out
 }
